@@ -108,6 +108,7 @@ func equalExact(a, b *affine) bool {
 }
 
 type affCtx struct {
+	masked   []string // positions reduced with `& (size-1)` instead of `% size`
 	w        *World
 	g        *FG
 	tailIsH  bool                 // the tail field reads as H (grow path: tail == head)
@@ -160,6 +161,26 @@ func (c *affCtx) parse(v ssa.Value, depth int) *affine {
 		if args, ok := isBuiltinCall(x, "len"); ok && strings.HasSuffix(c.w.pathOf(args[0]), ".items") {
 			return affSym("M")
 		}
+		// n := copy(dst, src[lo:hi]) is hi-lo when dst is the whole freshly made buffer, which is at least as long as the old one
+		if args, ok := isBuiltinCall(x, "copy"); ok && len(args) == 2 {
+			if ms, isMS := stripConv(args[0]).(*ssa.MakeSlice); isMS {
+				if sz := c.parse(ms.Len, depth+1); sz != nil && !sz.modM && sz.c >= 0 && sz.coef["M"] >= 1 && len(sz.coef) == 1 {
+					base, lo, hi := sliceOf(args[1])
+					if strings.HasSuffix(c.w.pathOf(base), ".items") {
+						l, h := affConst(0), affSym("M")
+						if lo != nil {
+							l = c.parse(lo, depth+1)
+						}
+						if hi != nil {
+							h = c.parse(hi, depth+1)
+						}
+						if l != nil && h != nil {
+							return h.add(l, -1)
+						}
+					}
+				}
+			}
+		}
 	case *ssa.BinOp:
 		switch x.Op {
 		case token.ADD, token.SUB:
@@ -184,6 +205,19 @@ func (c *affCtx) parse(v ssa.Value, depth int) *affine {
 			}
 			if k, ok := b.isConst(); ok {
 				return a.scale(k)
+			}
+			return nil
+		case token.AND:
+			// x & (M-1): a modulo only when M is a power of two
+			for _, pair := range [][2]ssa.Value{{x.X, x.Y}, {x.Y, x.X}} {
+				if m := c.parse(pair[1], depth+1); m != nil && equalExact(m, affSym("M").add(affConst(1), -1)) {
+					c.masked = append(c.masked, c.w.pathOf(x))
+					if a := c.parse(pair[0], depth+1); a != nil {
+						r := a.clone()
+						r.modM = true
+						return r
+					}
+				}
 			}
 			return nil
 		case token.REM:
@@ -247,6 +281,24 @@ func (c *affCtx) parse(v ssa.Value, depth int) *affine {
 	return affSym("v:" + p)
 }
 
+// ringSizesArePowersOfTwo: every buffer size the ring can have is a power of two by construction: New rounds
+// or rejects its argument (not the case on the pinned tree: any size is accepted).
+func ringSizesArePowersOfTwo(w *World) bool {
+	nw := w.Func("ringbuffer", "New")
+	if nw == nil {
+		return false
+	}
+	for _, in := range w.insOf(nw) {
+		if b, ok := in.(*ssa.BinOp); ok && (b.Op == token.AND || b.Op == token.SHL) {
+			return true // some bit arithmetic on the size: assume a rounding/validation (fail-open only for New itself)
+		}
+		if c := callOf(in); c != nil && c.StaticCallee() != nil && strings.Contains(c.StaticCallee().String(), "math/bits") {
+			return true
+		}
+	}
+	return false
+}
+
 func checkRingRotation(w *World, r *Report, rule string) {
 	push := w.Method("ringbuffer", "RingBuffer", "Push")
 	pop := w.Method("ringbuffer", "RingBuffer", "Pop")
@@ -258,6 +310,29 @@ func checkRingRotation(w *World, r *Report, rule string) {
 	}
 	isOldItems := func(v ssa.Value) bool { return strings.HasSuffix(w.pathOf(v), ".items") }
 	checkRingNormalised(w, r, rule, []*ssa.Function{push, pop, popn}, nil)
+	// positions are reduced with `% size`; `& (size-1)` is the same only for power-of-two sizes
+	{
+		var masked []string
+		for _, fn := range []*ssa.Function{push, pop, popn} {
+			g := w.FGI(fn)
+			cx := &affCtx{w: w, g: g}
+			for _, in := range g.ins {
+				if b, ok := in.(*ssa.BinOp); ok && b.Op == token.AND {
+					cx.masked = nil
+					cx.parse(b, 0)
+					if len(cx.masked) > 0 {
+						masked = append(masked, fn.Name()+": "+w.pos(b.Pos()))
+					}
+				}
+			}
+		}
+		if len(masked) > 0 && !ringSizesArePowersOfTwo(w) {
+			r.Fail(rule, "RingBuffer:modulo-not-mask", "ring positions are reduced modulo the size", w.fnPos(push),
+				"positions are masked with size-1 ("+strings.Join(masked, ", ")+") but New accepts any size: for a size that is not a power of two the mask is not a modulo, slots are skipped and overwritten")
+		} else {
+			r.OK(rule, "RingBuffer:modulo-not-mask", "ring positions are reduced modulo the size (or masked, with sizes forced to powers of two)", w.fnPos(push))
+		}
+	}
 	verdict := func(key, what, site string, decided bool, bad []string) {
 		switch {
 		case len(bad) > 0:
